@@ -948,6 +948,33 @@ fn build_iterate(s: P, l: &LoopSpec, sides: Vec<P>) -> (P, P) {
     (erase(st.map(Val::Int)), erase(out))
 }
 
+fn all_to_all(s: &BStage) -> bool {
+    match s {
+        BStage::Shuffle | BStage::GbSum(..) | BStage::GbFold(..) | BStage::GbWin(..) | BStage::JoinSide(..) => true,
+        BStage::Replay(l) | BStage::Iterate(l) | BStage::IterItems(l) | BStage::IterBoth(l) => l.body.iter().any(all_to_all),
+        _ => false,
+    }
+}
+
+fn risky_body(body: &[BStage], in_iterate: bool) -> bool {
+    (in_iterate && body.iter().any(all_to_all))
+        || body.iter().any(|s| match s {
+            BStage::Replay(l) => risky_body(&l.body, false),
+            BStage::Iterate(l) | BStage::IterItems(l) | BStage::IterBoth(l) => risky_body(&l.body, true),
+            _ => false,
+        })
+}
+
+/// Does the job contain an `iterate` (node or nested stage) with an all-to-all stage in its body?
+/// With small batches on >= 2 replicas such a loop can deadlock (known finding F18, tracked under C04).
+pub fn has_risky_iterate(job: &Job) -> bool {
+    job.nodes.iter().any(|n| match &n.kind {
+        Kind::Replay(_, _, l) => risky_body(&l.body, false),
+        Kind::Iterate(_, _, l) => risky_body(&l.body, true),
+        _ => false,
+    })
+}
+
 /// the copies of the side stream a loop needs (one per use; drained if unused)
 fn side_copies(side: Option<P>, l: &LoopSpec) -> Vec<P> {
     let c = side_uses(&l.body);
@@ -2154,15 +2181,24 @@ pub fn gen_cases(seed: u64, n: usize, opts: GenOpts) -> Vec<(String, Case)> {
     while out.len() < n {
         let mut r = rng.fork();
         let job = gen_job(&mut r, opts);
+        let risky = has_risky_iterate(&job);
         for class in 0..3 {
             if out.len() >= n {
                 break;
             }
             let cfg = gen_config(&mut r, class);
-            let batch = match *r.pick(Batch::ALL) {
+            let mut batch = match *r.pick(Batch::ALL) {
                 Batch::Adaptive(..) => Batch::Adaptive(*r.pick(&[1, 2, 8, 100]), *r.pick(&[1, 5, 20])),
                 b => b,
             };
+            // region of the known engine defect F18 (iterate + all-to-all body stage, small batches, >= 2
+            // replicas: intermittent deadlock, a blocked run costs the whole watchdog): kept, but only one
+            // in four such combinations, so that the quick tier stays stable
+            let small = matches!(batch, Batch::Single | Batch::Fixed(1) | Batch::Fixed(3))
+                || matches!(batch, Batch::Adaptive(n, _) if n <= 8);
+            if small && risky && cfg.total_cores() >= 2 && !r.chance(1, 4) {
+                batch = *r.pick(&[Batch::Default, Batch::Fixed(1024), Batch::Adaptive(100, 5)]);
+            }
             let mut c = Case::new(&["e2e", &cfg.to_string(), &batch.to_string()]);
             c.ops = job.to_ops();
             out.push((format!("e2e-{seed}-{j}-{class}"), c));
